@@ -359,6 +359,26 @@ pub fn watchdog_start(id: &str, tier: &str, horizon_s: u64) {
         std::thread::sleep(std::time::Duration::from_secs(1));
         let w = WATCH.get().unwrap();
         let now = w.tick.fetch_add(1, Ordering::Relaxed) + 1;
+        // resident-set cap: a subject call that allocates without bound is reported before the machine runs out of memory
+        // (blamed on the call that has been running longest)
+        let rss_gb = std::fs::read_to_string("/proc/self/statm").ok().and_then(|t| t.split_whitespace().nth(1).and_then(|x| x.parse::<f64>().ok())).map(|pages| pages * 4096.0 / 1e9).unwrap_or(0.0);
+        let cap_gb: f64 = std::env::var("QZV_RSS_CAP_GB").ok().and_then(|x| x.parse().ok()).unwrap_or(24.0);
+        if rss_gb > cap_gb {
+            if let Some((i, s)) = w.slots.iter().enumerate().filter(|(_, s)| s.0.load(Ordering::Relaxed) != 0).min_by_key(|(_, s)| s.0.load(Ordering::Relaxed)) {
+                let outer = s.1.load(Ordering::Relaxed);
+                let inner = s.2.load(Ordering::Relaxed);
+                let dir = format!("{}/replays/{}", VERIF_DIR, id);
+                let _ = std::fs::create_dir_all(&dir);
+                let path = format!("{}/hang-{}-{}.json", dir, outer, inner);
+                let body = json!({"property": id, "signature": "nontermination|runaway-allocation", "detail": format!("resident set {:.1} GB exceeds the cap of {} GB; longest-running subject call: worker {} for {} s", rss_gb, cap_gb, i, now.saturating_sub(s.0.load(Ordering::Relaxed))), "witness": {"kind": "index", "outer": outer, "inner": inner}});
+                let _ = std::fs::write(&path, serde_json::to_string_pretty(&body).unwrap());
+                println!("VIOLATION property={} replay={}", id, path);
+            } else {
+                eprintln!("MACHINERY ERROR: resident set {:.1} GB exceeds the cap with no subject call in flight", rss_gb);
+                std::process::exit(2);
+            }
+            std::process::exit(1);
+        }
         for (i, s) in w.slots.iter().enumerate() {
             let st = s.0.load(Ordering::Relaxed);
             if st != 0 && now.saturating_sub(st) > horizon_s {
